@@ -12,7 +12,7 @@ def run(ctx, res):
     for v in viol:
         if v.get("prop", "C03") == "C03":
             res.oracle_violations.append(v)
-    K.report(ctx, res, pool, cmp_, spv, stats, facts)
+    K.report(ctx, res, pool, cmp_, [], stats, facts)
     res.assumptions = [
         "the assorter is a black box A (its values are read from the implementation's assort() on every record); "
         "theorems assume 0 <= A <= u on the cards under audit and A = 1/2 on phantom CVRs outside pools "
